@@ -59,12 +59,33 @@ def report(ctx, pid, res, trace, label, props=None):
 
 
 def mutate_and_reject(ctx, trace, label, mutator, what):
-    """Binding demonstration: corrupt one recorded line; the trace spec must reject it."""
+    """Binding demonstration: corrupt one recorded line; the trace spec must reject it.
+    mutator may be a list (first applicable wins). Skipped when the run already found violations
+    (the demonstration is about the unchanged tree; it must never mask a verdict)."""
+    if ctx.violations:
+        ctx.notes.append("binding demonstration skipped: the run found violations")
+        return
+    if isinstance(mutator, (list, tuple)):
+        last = None
+        for m in mutator:
+            try:
+                return mutate_and_reject(ctx, trace, label, m, what)
+            except vflib.Broken as e:
+                last = e
+                if "no line to corrupt" not in str(e):
+                    raise
+        raise last
     lines = open(trace).read().splitlines()
+    if mutator is None:
+        return mutate_crash(ctx, lines, label, what)
     for i, ln in enumerate(lines):
         if '"ev":"reset"' in ln:
             continue
         e = json.loads(ln)
+        if e.get("ev") != "req":
+            continue
+        if "ro" in label and not json.loads(lines[[k for k in range(i, -1, -1) if '"ev":"reset"' in lines[k] or '"ev":"cfg"' in lines[k]][0]])["cfg"].get("ro"):
+            continue
         m = mutator(e)
         if m is None:
             continue
@@ -79,6 +100,30 @@ def mutate_and_reject(ctx, trace, label, mutator, what):
         ctx.cov["binding_mutations_rejected"] += 1
         return
     raise vflib.Broken("binding demonstration (%s): no line to corrupt" % what)
+
+
+def mutate_crash(ctx, lines, label, what):
+    """Corrupt the durable copy logged at a crash line for a file with acknowledged data."""
+    for i, ln in enumerate(lines):
+        if '"ev":"crash"' in ln:
+            e = json.loads(ln)
+            start = i
+            while start > 0 and '"ev":"reset"' not in lines[start]:
+                start -= 1
+            acked = any(json.loads(x).get("proc") == "WRITE" and json.loads(x).get("ok") for x in lines[start + 1:i])
+            if not acked:
+                continue
+            for dnode in e["dur"]:
+                if dnode["d"]:
+                    dnode["d"] = [(b + 1) % 256 for b in dnode["d"]]
+            mp = os.path.join(ctx.scratch, "mut_%s.ndjson" % label)
+            open(mp, "w").write("\n".join(lines[start:i] + [json.dumps(e)]) + "\n")
+            res = validate(ctx, mp, label + "_mut")
+            if not res["bad"]:
+                raise vflib.Broken("binding demonstration failed (%s): corrupted trace accepted" % what)
+            ctx.cov["binding_mutations_rejected"] += 1
+            return
+    raise vflib.Broken("binding demonstration (%s): no crash line with acknowledged data" % what)
 
 
 def mut_lose_data(e):
@@ -113,7 +158,10 @@ def run_profile(ctx, binp, profile, hist, steps, extra_env=None):
     env = {"VF_PROFILE": profile, "VF_HIST": hist, "VF_STEPS": steps}
     if extra_env:
         env.update(extra_env)
-    ctx.harness_ok(binp, "TestVF_Core", env, timeout=1200)
+    test = "TestVF_Core" if profile in ("ns", "data") else "TestVF_Core2"
+    if profile in ("own", "ro", "names"):
+        env["VF_CALLS"] = "1"
+    ctx.harness_ok(binp, test, env, timeout=1200)
     trace = os.path.join(ctx.scratch, "core_%s.ndjson" % profile)
     summ = json.load(open(os.path.join(ctx.scratch, "core_%s.summary.json" % profile)))
     res = validate(ctx, trace, profile)
@@ -146,3 +194,26 @@ def replay(ctx, pid, props=None):
     ctx.cov["evaluations"] = len(body)
     ctx.cov["distinct_nontrivial"] = 2
     ctx.sample({"replayed": ctx.replay})
+
+
+def mut_fbig(e):
+    if e.get("proc") == "WRITE" and e.get("st") == "FBIG":
+        e["st"], e["ok"] = "OK", True
+        return e
+    return None
+
+
+def mut_owner(e):
+    if e.get("proc") in ("CREATE", "MKDIR", "SYMLINK") and e.get("ok"):
+        for n in e["tree"]:
+            if n["p"] == e["h"] + [e["name"]]:
+                n["uid"] = 4242
+                return e
+    return None
+
+
+def mut_romut(e):
+    if e.get("rocheck") and e.get("mut") == 0 and e.get("proc") in ("GETATTR", "READ", "LOOKUP"):
+        e["mut"] = 1
+        return e
+    return None
